@@ -12,7 +12,7 @@ Design language (interpreted with the real API by interp.py; described staticall
           | {"k":"trans","name","ready": id|None,"block"}
           | {"k":"method","ref","ready": id|None,"nonexclusive","combiner": None|"or"|"sum"|"xor"|"count",
              "single_caller","validate": None|[kind,c],"out":[kind(,c)],"loc": id|None,"sugar","block"}
-          | {"k":"call","site","ref","enable": id|None,"arg": id|int|None,"kw","via_group"}
+          | {"k":"call","site","ref","enable": id|None|{"const":0|1,"form":"C"|"int"|"bool"},"arg": id|int|None,"kw","via_group"}
           | {"k":"provide","ref","target"} | {"k":"provide_group","group","targets":[refs]}
   rel     = {"k":"conflict","a","b","prio":"U|L|R"} | {"k":"before","a","b","rd":0|1}
 
@@ -59,10 +59,10 @@ DEFAULT_P = {
 }
 
 INJECT_KINDS = ["doubleCall", "cycle", "unsatPriority", "singleCaller", "readyDepConflict", "sameTransConflict",
-                "sameTransMixed", "aliasDouble"]
+                "sameTransMixed", "aliasDouble", "nonexclTwice"]
 # the reject kind an injected defect is expected to be classified as (analysis.classify decides)
-EXPECT_KIND = {"sameTransMixed": "sameTransConflict", "aliasDouble": "doubleCall"}
-ACCEPT_KINDS = ["alts_if", "alts_switch", "alts_fsm", "nonexcl_multi", "same_trans_excl", "alias_alts"]
+EXPECT_KIND = {"sameTransMixed": "sameTransConflict", "aliasDouble": "doubleCall", "nonexclTwice": "doubleCall"}
+ACCEPT_KINDS = ["alts_if", "alts_switch", "alts_fsm", "nonexcl_multi", "same_trans_excl", "alias_alts", "nonexcl_alts"]
 
 
 def _rint(rng, lohi):
@@ -239,11 +239,18 @@ class Gen:
             "k": "call",
             "site": self.site(),
             "ref": ref,
-            "enable": self.inp(1, "e") if rng.random() < P["p_enable"] else None,
+            "enable": self.gen_enable(),
             "arg": arg,
             "kw": int(rng.random() < 0.5),
             "via_group": int(bool(d.get("group")) and self._group_count(d) == 1 and rng.random() < 0.5),
         }
+
+    def gen_enable(self):
+        rng, P = self.rng, self.P  # noqa: F841
+        x = rng.random()
+        if x < P.get("p_const_enable", 0.1):  # constant enables: C(0), C(1), 0, 1, False, True
+            return {"const": rng.choice([0, 0, 1]), "form": rng.choice(["C", "int", "bool"])}
+        return self.inp(1, "e") if x < P.get("p_const_enable", 0.1) + P["p_enable"] else None
 
     def _group_count(self, d) -> int:
         return next(g["count"] for g in self.groups if g["name"] == d["group"][0])
@@ -532,7 +539,10 @@ def _new_site(design) -> int:
 
 def _call(design, ref, rng, enable=False) -> dict:
     d = next(m for m in design["methods"] if m["ref"] == ref)
-    return {"k": "call", "site": _new_site(design), "ref": ref, "enable": _new_input(design, 1, "e") if enable else None,
+    en = None
+    if enable:
+        en = {"const": rng.choice([0, 1]), "form": rng.choice(["C", "int", "bool"])} if rng.random() < 0.2 else _new_input(design, 1, "e")
+    return {"k": "call", "site": _new_site(design), "ref": ref, "enable": en,
             "arg": _new_input(design, d["iw"], "a") if d["iw"] else None, "kw": 0, "via_group": 0}
 
 
@@ -660,6 +670,12 @@ def _fresh_alias(d: dict, rng, target: str, tag: str) -> str:
     return ref
 
 
+def _trans_names_calling(d: dict, refs: list) -> list:
+    desc = Desc(d)
+    out = [t for t in desc.transactions if any(desc.sites[s].ref in refs for s in desc.bodies[t].sites)]
+    return out or desc.transactions
+
+
 def same_trans_family(d: dict, rng: random.Random, P, must_reject: bool):
     """One transaction `t` reaches both ends of an add_conflict relation from several call sites placed in the
     alternatives of one If/Switch/FSM.
@@ -697,7 +713,14 @@ def same_trans_family(d: dict, rng: random.Random, P, must_reject: bool):
     if rng.random() < 0.5:
         _fresh_trans(d, rng, "q", mi)["block"].append(_call(d, a, rng))
     x, y = (a, b) if rng.random() < 0.6 else (b, a)
-    d["relations"].append({"k": "conflict", "a": x, "b": y, "prio": rng.choice(["U", "L", "R"])})
+    d["relations"].append({"k": "conflict", "a": x, "b": y, "prio": rng.choice(["U", "L", "R", "L", "R"])})
+    if not must_reject and rng.random() < 0.5:
+        # an extra conflict on one side, so that the number of conflicts (the manager's tie-break key)
+        # differs between the two-branch transaction and the other callers
+        side = rng.choice(_trans_names_calling(d, [a, b]))
+        tx = _fresh_trans(d, rng, "q", mi)
+        pair = (side, tx["name"]) if rng.random() < 0.5 else (tx["name"], side)
+        d["relations"].append({"k": "conflict", "a": pair[0], "b": pair[1], "prio": "U"})
 
 
 def alias_family(d: dict, rng: random.Random, P, must_reject: bool):
@@ -727,14 +750,59 @@ def alias_family(d: dict, rng: random.Random, P, must_reject: bool):
     _fresh_trans(d, rng, "z")["block"].append(_call(d, rng.choice([x, al]), rng))
 
 
+def nonexcl_twice_family(d: dict, rng: random.Random, P, must_reject: bool):
+    """A nonexclusive method N whose call tree contains an exclusive method E is reached twice from one root:
+    on non-exclusive control paths (directly twice, or once directly and once through a helper method) -
+    E is then called twice: must reject - or in different alternatives of one structure (must accept)."""
+    g = _helper_gen(d, rng, P)
+    e = _fresh_leaf(d, rng, "w", iw=rng.choice([0, 2]))
+    n = _fresh_leaf(d, rng, "w", nonexclusive=1)
+    nb = _find_body_stmt(d, n)["block"]
+    if rng.random() < 0.4:  # E below a further (nonexclusive or exclusive) level
+        mid = _fresh_leaf(d, rng, "w", nonexclusive=int(rng.random() < 0.5))
+        _find_body_stmt(d, mid)["block"].append(_call(d, e, rng))
+        nb.append(_call(d, mid, rng, enable=rng.random() < 0.3))
+    else:
+        nb.append(_call(d, e, rng, enable=rng.random() < 0.3))
+    t = _fresh_trans(d, rng, "w")
+    if must_reject and rng.random() < 0.35:
+        # the nonexclusive method itself calls E a second time on a non-exclusive path (two call sites of E
+        # below one nonexclusive ancestor); the transaction calls N once
+        c = _call(d, e, rng)
+        nb.append(c if rng.random() < 0.5 else {"k": "if", "uid": g.uid(), "alts": [{"cond": _new_input(d, 1, "c"), "block": [c]}]})
+        t["block"].append(_call(d, n, rng))
+        _fresh_trans(d, rng, "w")["block"].append(_call(d, n, rng))
+        return
+    c1 = _call(d, n, rng, enable=rng.random() < 0.3)
+    if rng.random() < 0.4:  # second path through a helper method
+        h = _fresh_leaf(d, rng, "w", nonexclusive=int(rng.random() < 0.5))
+        _find_body_stmt(d, h)["block"].append(_call(d, n, rng))
+        c2 = _call(d, h, rng)
+    else:
+        c2 = _call(d, n, rng, enable=rng.random() < 0.3)
+    if must_reject:
+        t["block"].append(c1)
+        if rng.random() < 0.5:
+            t["block"].append(c2)
+        else:
+            t["block"].append({"k": "if", "uid": g.uid(), "alts": [{"cond": _new_input(d, 1, "c"), "block": [c2]}]})
+    else:
+        t["block"].append(g.wrap_struct(rng.choice(["if", "switch", "fsm"]), g.uid(), [[c1], [c2]]))
+    _fresh_trans(d, rng, "w")["block"].append(_call(d, rng.choice([n, e]), rng))
+
+
+_FAMILIES = {"sameTransMixed": same_trans_family, "aliasDouble": alias_family, "nonexclTwice": nonexcl_twice_family,
+             "same_trans_excl": same_trans_family, "alias_alts": alias_family, "nonexcl_alts": nonexcl_twice_family}
+
+
 def gen_injected(rng: random.Random, P: Optional[dict], kind: str) -> dict:
     for _ in range(10):
         base = gen_valid(rng, P)
         if base["tag"] != "valid":
             continue
-        if kind in ("sameTransMixed", "aliasDouble"):
+        if kind in EXPECT_KIND:
             d = copy.deepcopy(base)
-            (same_trans_family if kind == "sameTransMixed" else alias_family)(d, rng, P, True)
+            _FAMILIES[kind](d, rng, P, True)
             d["inject"] = kind
             d["tag"] = f"inject:{kind}"
         else:
@@ -758,8 +826,8 @@ def gen_accept_case(rng: random.Random, P: Optional[dict], kind: str) -> dict:
             break
     d = copy.deepcopy(base)
     k = rng.choice([2, 3, 4])
-    if kind in ("same_trans_excl", "alias_alts"):
-        (same_trans_family if kind == "same_trans_excl" else alias_family)(d, rng, P, False)
+    if kind in _FAMILIES:
+        _FAMILIES[kind](d, rng, P, False)
         d["tag"] = f"accept:{kind}"
         d["inject"] = None
         d["k"] = 2
